@@ -68,7 +68,7 @@ func (md *DIBasicType) LLString() string {
 		fields = append(fields, field)
 	}
 	if md.Encoding != 0 {
-		field := fmt.Sprintf("encoding: %s", md.Encoding)
+		field := fmt.Sprintf("encoding: %s", enumString(md.Encoding))
 		fields = append(fields, field)
 	}
 	if md.Flags != 0 {
@@ -212,7 +212,7 @@ func (md *DICompileUnit) LLString() string {
 		buf.WriteString("distinct ")
 	}
 	var fields []string
-	field := fmt.Sprintf("language: %s", md.Language)
+	field := fmt.Sprintf("language: %s", enumString(md.Language))
 	fields = append(fields, field)
 	field = fmt.Sprintf("file: %s", md.File)
 	fields = append(fields, field)
@@ -237,7 +237,7 @@ func (md *DICompileUnit) LLString() string {
 		fields = append(fields, field)
 	}
 	if md.EmissionKind != 0 {
-		field = fmt.Sprintf("emissionKind: %s", md.EmissionKind)
+		field = fmt.Sprintf("emissionKind: %s", enumString(md.EmissionKind))
 		fields = append(fields, field)
 	}
 	if md.Enums != nil {
@@ -273,7 +273,7 @@ func (md *DICompileUnit) LLString() string {
 		fields = append(fields, field)
 	}
 	if md.NameTableKind != 0 {
-		field = fmt.Sprintf("nameTableKind: %s", md.NameTableKind)
+		field = fmt.Sprintf("nameTableKind: %s", enumString(md.NameTableKind))
 		fields = append(fields, field)
 	}
 	if md.RangesBaseAddress {
@@ -1368,7 +1368,7 @@ func (md *DIMacro) LLString() string {
 		buf.WriteString("distinct ")
 	}
 	var fields []string
-	field := fmt.Sprintf("type: %s", md.Type)
+	field := fmt.Sprintf("type: %s", enumString(md.Type))
 	fields = append(fields, field)
 	if md.Line != 0 {
 		field := fmt.Sprintf("line: %d", md.Line)
@@ -1432,7 +1432,7 @@ func (md *DIMacroFile) LLString() string {
 	}
 	var fields []string
 	if md.Type != 0 {
-		field := fmt.Sprintf("type: %s", md.Type)
+		field := fmt.Sprintf("type: %s", enumString(md.Type))
 		fields = append(fields, field)
 	}
 	if md.Line != 0 {
@@ -1754,7 +1754,7 @@ func (md *DIStringType) LLString() string {
 		fields = append(fields, field)
 	}
 	if md.Encoding != 0 {
-		field := fmt.Sprintf("encoding: %s", md.Encoding)
+		field := fmt.Sprintf("encoding: %s", enumString(md.Encoding))
 		fields = append(fields, field)
 	}
 	fmt.Fprintf(buf, "!DIStringType(%s)", strings.Join(fields, ", "))
@@ -1891,7 +1891,7 @@ func (md *DISubprogram) LLString() string {
 		fields = append(fields, field)
 	}
 	if md.Virtuality != 0 {
-		field := fmt.Sprintf("virtuality: %s", md.Virtuality)
+		field := fmt.Sprintf("virtuality: %s", enumString(md.Virtuality))
 		fields = append(fields, field)
 	}
 	if md.VirtualIndex != 0 {
@@ -2064,7 +2064,7 @@ func (md *DISubroutineType) LLString() string {
 		fields = append(fields, field)
 	}
 	if md.CC != 0 {
-		field := fmt.Sprintf("cc: %s", md.CC)
+		field := fmt.Sprintf("cc: %s", enumString(md.CC))
 		fields = append(fields, field)
 	}
 	field := fmt.Sprintf("types: %s", md.Types)
